@@ -4,7 +4,8 @@ From Coq Require Import String List NArith.
 From CMinx Require Import Base.Str Model.Lexer Model.Parser Model.Writer Model.DocTypes Model.Aggregator
      Model.Pipeline Model.Path Model.Naming Gen.SourceLiterals
      Proofs.NamingFacts Proofs.AggInv Proofs.LiteralsMatch
-     Base.PySem Gen.PySource Proofs.SourceMatch.
+     Base.PySem Gen.PySource Proofs.SourceMatch
+     Proofs.SourceLinks.
 Import ListNotations.
 
 (* the page: title frame (first header character repeated to exactly the title's length), then
@@ -122,3 +123,28 @@ Theorem C12_heading_matches_source :
   forall c title, heading_text c title = PySource.Heading_build_heading_string title c.
 Proof. exact heading_text_matches_source. Qed.
 Print Assumptions C12_heading_matches_source.
+
+(* the title / module decision of Documenter.process_docs and the naming lines of
+   document_single_file, translated from the current source *)
+Theorem C12_module_entry_matches_source :
+  forall text docs,
+    docs ++ [module_entry text] = PySource.DocumentationAggregator_enterDocumented_module text docs.
+Proof. exact module_entry_matches_source. Qed.
+Print Assumptions C12_module_entry_matches_source.
+
+Theorem C12_process_docs_is_finalize :
+  forall fl trigger strip_fn strip_mac strip_mem f st title module_name,
+    aggregate fl trigger strip_fn strip_mac strip_mem f = Ok st ->
+    PySource.Documenter_process_docs (documented st) module_name title
+    = (snd (finalize title module_name (documented st)),
+       fst (finalize title module_name (documented st))).
+Proof. exact process_docs_is_finalize. Qed.
+Print Assumptions C12_process_docs_is_finalize.
+
+(* relpath / basename are whatever os.path.relpath(file, root) / os.path.basename(file) return *)
+Theorem C12_single_file_names_match_source :
+  forall prefix sep isdir relpath basename ext_titles ext_modules,
+    PySource.document_single_file_names prefix sep isdir relpath basename ext_titles ext_modules
+    = header_and_module prefix sep ext_titles ext_modules (if isdir then relpath else basename).
+Proof. exact single_file_names_match_source. Qed.
+Print Assumptions C12_single_file_names_match_source.
